@@ -1,0 +1,7 @@
+//go:build !verif
+
+package jsonrpc
+
+// vhook is an observation point used by the external verification harness.
+// Without the "verif" build tag it does nothing.
+func vhook(point string, args ...interface{}) {}
